@@ -79,6 +79,7 @@ try:
                     if t not in tests:
                         tests.append(t)
                 break
+    sh('rm -rf /tmp/test /tmp/sock_abc')
     cmd = f'cd {wt} && PYTHONPATH={wt}/src timeout 1500 {PY} -m pytest -q -p no:cacheprovider --timeout=300 -x --deselect tests/test_http.py::test_server --deselect tests/test_streamer.py::test_eager_batcher --deselect tests/test_docs.py::test_docs --deselect tests/test_multiprocessing_serverprocess.py::test_concurrency ' + ' '.join(tests)
     cmd = cmd.replace(' -x ', ' ')
     t0 = time.time()
